@@ -37,7 +37,7 @@ from sim import core
 PROPERTY = "C15"
 ISOLATE = True
 TIERS = {
-    "quick": {"runs": 10000, "budget_s": 60, "timeout_s": 40, "chunk": 32, "det_sample": 48, "det_runs": 300,
+    "quick": {"runs": 14000, "budget_s": 60, "timeout_s": 40, "chunk": 32, "det_sample": 48, "det_runs": 300,
               "shrink_execs": 600, "shrink_s": 60.0},
     "thorough": {"runs": 400000, "budget_s": 570, "timeout_s": 60, "chunk": 32, "det_sample": 64, "det_runs": 1000,
                  "shrink_execs": 800, "shrink_s": 120.0},
@@ -240,7 +240,8 @@ def simplify(plan):
         return p
 
     g = plan["grid"]
-    simple = {"type": "unit", "shape": [3], "periodic": [False]}
+    # (monotone candidates only - the minimiser restarts after every accepted candidate, so no two may undo each other)
+    simple = {"type": "unit", "shape": [2], "periodic": [False]}
     if g != simple:
         yield variant(lambda p: p.update(grid=simple))
     if g.get("type") in ("unit", "cart") and any(g["periodic"]):
